@@ -393,8 +393,57 @@ def rule_f(ctx: Context, R: Reporter, f: FuncInfo):
     R.floor("C04.f", "oriented occurrences", n, 7)
 
 
+def rule_g(ctx: Context, R: Reporter, f: FuncInfo):
+    """C04.g  the flat index space of the weights is the concatenation of batches of *any* sizes: nowhere is a flat
+    index (or the flat sample axis) decomposed with the length of one particular stored batch as the stride
+    (`divmod(idx, len(batches[0]))`, `idx // n0`, `reshape(T, n0)`): that is exact only for equal batch sizes,
+    which a resumed run with another particle count does not have."""
+    from ..dataflow import Resolver as _Res
+
+    def one_batch_len(e: ast.AST) -> Optional[str]:
+        for x in ast.walk(e):
+            tgt = None
+            if isinstance(x, ast.Call) and dotted(x.func) == "len" and x.args and isinstance(x.args[0], ast.Subscript):
+                tgt = x.args[0]
+            elif isinstance(x, ast.Subscript) and isinstance(x.value, ast.Attribute) and x.value.attr == "shape" and isinstance(x.value.value, ast.Subscript):
+                tgt = x.value.value
+            if tgt is not None and isinstance(tgt.slice, (ast.Constant, ast.UnaryOp)):
+                base = norm_text(tgt.value)
+                if "_history" in base or "get_history(" in base and "flat=True" not in base:
+                    return unparse(x)[:40]
+        return None
+
+    n = 0
+    for fi in ctx.prog.functions.values():
+        rs = None
+        flow = None
+        for x in walk_no_nested(fi.node):
+            div = None
+            if isinstance(x, ast.BinOp) and isinstance(x.op, (ast.FloorDiv, ast.Mod)):
+                div = x.right
+            elif isinstance(x, ast.Call) and dotted(x.func).split(".")[-1] in ("divmod", "unravel_index", "reshape") and len(x.args) >= 1:
+                div = ast.Tuple(elts=list(x.args[1:]) if dotted(x.func).split(".")[-1] != "reshape" or not isinstance(x.func, ast.Attribute) else list(x.args), ctx=ast.Load())
+            if div is None:
+                continue
+            if rs is None:
+                rs = _Res(fi.node)
+                flow = flow_of(fi.node)
+            at = flow.node_containing(x)
+            rd = rs.resolve(div, at) if at is not None else div
+            hit = one_batch_len(rd)
+            n += 1
+            if hit:
+                R.check("C04.g", "no flat index is decomposed with the size of one stored batch as the stride", False, fi, x,
+                        msg=f"{fi.short}: `{unparse(x)[:70]}` uses `{hit}` (the size of one particular stored batch) as the stride of the flat sample axis: with unequal batch "
+                            f"sizes (a run resumed with another particle count) flat index i no longer addresses the i-th stored sample, so weights, resampling and trimming "
+                            f"select other particles than the ones the weights were computed for", key=f"stride-assumption:{fi.short}")
+    R.check("C04.g", "flat-index arithmetic never assumes equal batch sizes", True, f, f.node, key="stride-scan")
+    R.analysed["C04.g:division/reshape sites scanned"] = n
+
+
 def run(ctx: Context, R: Reporter):
     f = _weights_fn(ctx)
+    R.guard(rule_g, ctx, R, f)
     R.guard(rule_f, ctx, R, f)
     R.guard(rule_a, ctx, R, f)
     R.guard(rule_b, ctx, R, f)
@@ -436,6 +485,7 @@ def variants():
         Variant("f-evidence-times-count", "bad", replace_stmt(sm, g, "logz_new = np.logaddexp.reduce(logw) - np.log(logw.size)", "logz_new = np.logaddexp.reduce(logw) + np.log(logw.size)"), ["C04.f"]),
         Variant("f-mixture-ratio-inverted", "bad", replace_stmt(sm, g, "log_mixture_weights = np.log(n_per_iter) - np.log(N_total)", "log_mixture_weights = np.log(N_total) - np.log(n_per_iter)"), ["C04.f"]),
         Variant("f-benign-commuted-sum", "benign", replace_expr(sm, g, "b + log_mixture_weights[None, :]", "log_mixture_weights[None, :] + b")),
+        Variant("g-equal-batch-stride", "bad", insert_after(sm, g, "logl_per_iter = self._history.get('logl')", "which_iter = np.arange(len(logl_all)) // len(logl_per_iter[0])"), ["C04.g"], quick=True),
         Variant("benign-rename-b", "benign", alpha_rename(sm, g, "b_weighted", "comp"), quick=True),
         Variant("benign-inline-A", "benign", replace_stmt(sm, g, "logw = A - B", "logw = beta_final * logl_all - B")),
         Variant("benign-log-ratio", "benign", replace_stmt(sm, g, "log_mixture_weights = np.log(n_per_iter) - np.log(N_total)", "log_mixture_weights = np.log(n_per_iter / N_total)")),
